@@ -569,7 +569,7 @@ fn corrupt(rng: &mut Rng, d: &mut gen::DictSrc) -> String {
                     let side = 1 + rng.below(2); // 1 = left id column, 2 = right id column
                     // mostly the first id that is out of range on that very side
                     let own = if side == 1 { nl } else { nr };
-                    let v = *rng.pick(&[own, own, own, nl, nr, nl.max(nr) - 1, nl.min(nr), 65535, 65534]);
+                    let v = if rng.chance(2, 3) { own } else { *rng.pick(&[nl, nr, nl.max(nr) - 1, nl.min(nr), 65535, 65534]) };
                     cols[side] = v.to_string();
                     lines[li] = cols.join(",");
                 }
